@@ -697,6 +697,27 @@ def rule_entry_complete(ctx) -> None:
             reads.add(tuple(reversed(path)))
     reads = {r for r in reads if not any(len(o) > len(r) and o[:len(r)] == r for o in reads)}  # leaves only
     ctx.floor("C05.ENTRY", "fields the T1 hit path reads out of the cached entry", len(reads), 6)
+    # what a hit returns is what the entry says - except the cache's own diagnostics (hit / miss flags, eviction tallies of the
+    # cache, the max-delta gauge the statement exempts).  A work counter hard-coded to 0 on the hit path differs from the fresh
+    # measurement although the key is right.
+    DIAG = {"_cache_hit", "_cache_miss", "_max_delta_local", "_t1_cache_evicted", "_t1_cache_bytes"}
+    n_hitf = 0
+    for r in walk_no_defs(fn.node):
+        if not (isinstance(r, ast.Return) and isinstance(r.value, ast.Tuple) and len(r.value.elts) == 2 and isinstance(r.value.elts[1], ast.Dict)):
+            continue
+        d = r.value.elts[1]
+        if not any(isinstance(y, ast.Name) and y.id in hits for v in d.values for y in ast.walk(v)):
+            continue  # the fresh return
+        for kx, vx in zip(d.keys, d.values):
+            kname = const_str(kx) if kx is not None else None
+            if kname is None or kname in DIAG:
+                continue
+            n_hitf += 1
+            from_entry = any(isinstance(y, ast.Name) and y.id in hits for y in ast.walk(vx))
+            ctx.check(from_entry, "C05.ENTRY", f"{fn.qual}/hit-field-from-entry:{kname}", fn.loc(vx), f"`{kname}` is read out of the cached entry",
+                      f"on a hit `{kname}` is `{src(vx)[:30]}`, not a value of the cached entry, and it is not one of the cache's own diagnostics: a fresh computation measures it, so the stage "
+                      "result differs with the cache on")
+    ctx.floor("C05.ENTRY", "non-diagnostic fields of the T1 hit return", n_hitf, 6)
     puts = [(n, c) for n in sorted(cfg.nodes, key=lambda z: z.id) for c in node_calls(n) if call_tail(c) in ("put", "set") and isinstance(c.func, ast.Attribute) and len(c.args) >= 2]
     ctx.floor("C05.ENTRY", "store sites of the T1 cache", len(puts), 2)
     for n, c in puts:
